@@ -3,11 +3,21 @@
 package lnd
 
 import (
+	"context"
+
+	"github.com/elementsproject/peerswap/onchain"
 	"github.com/lightningnetwork/lnd/lnrpc"
 	"github.com/lightningnetwork/lnd/lnrpc/routerrpc"
+	"github.com/lightningnetwork/lnd/lnrpc/walletrpc"
 )
 
 // VerifBuildDirectClaimPaymentRequest exposes buildDirectClaimPaymentRequest to the verification harness.
 func VerifBuildDirectClaimPaymentRequest(payreq string, decoded *lnrpc.PayReq, channel *lnrpc.Channel, maxTotalCLTVDelta uint32) (*routerrpc.SendPaymentRequest, error) {
 	return buildDirectClaimPaymentRequest(payreq, decoded, channel, maxTotalCLTVDelta)
+}
+
+// VerifNewWalletClient builds a Client that has only what the wallet adapter (lnd_wallet.go) uses, over the
+// given gRPC client interfaces.
+func VerifNewWalletClient(ctx context.Context, ln lnrpc.LightningClient, wk walletrpc.WalletKitClient, chain *onchain.BitcoinOnChain) *Client {
+	return &Client{lndClient: ln, walletClient: wk, bitcoinOnChain: chain, ctx: ctx}
 }
